@@ -16,7 +16,7 @@ CLAIMED = {
    note='A*0 for one-sided A outside the quantifier; relative_to bound placement relies on the cited monotonicity of (x-r)/r', ref='4/C13'),
  'C14': dict(tech='decision tables + who-may-construct inventory + summary composition',
    text='Exhaustive tables for the four fallible constructors/conversions (Ok exactly for ordered bounds, documented errors otherwise), every accessor, projection and tuple/option/range conversion on every kind, round trips by composing summaries, kind predicates / is_degenerate / width, Clone identity and the Hash write sequence; plus an inventory rule that the two-sided variant is only built by the checked constructor, clones and arithmetic.',
-   note='ordered element types; derived PartialEq decided under C15', ref='4/C14'),
+   note='ordered element types; == decided by its own table (D6); overridden provided trait methods reported', ref='4/C14'),
  'C15': dict(tech='decision table of partial_cmp + order axioms on the complete 6-chain table',
    text='Exhaustive: the partial_cmp/eq decision tables equal the table fixed by the statement on every kind pair and weak order; the axioms (Equal iff ==, Less iff separated, antisymmetry, transitivity, incomparability) are then checked on all pairs/triples of the 33 abstract intervals of a 6-point chain, which realises every relative position of up to six bounds.',
    note='total orders only', ref='4/C15'),
@@ -26,18 +26,18 @@ CLAIMED = {
  'C19': dict(tech='boolean tables over opaque element relations + format_args templates joined with MIR argument order',
    text='Exhaustive: each approx impl, as a boolean function of the element relation on corresponding bounds (all truth assignments x 9 kind pairs), is the bound-wise conjunction with the tolerances passed through and false for mixed kinds; the three Display templates are exactly the canonical strings with plain Display placeholders bound to (low, high) in order.',
    note='reflexivity/symmetry inherited from the approx contract on floats', ref='4/C19'),
- 'C02': dict(tech='integer zone tables + rational-function normal form + counting-fold refinement',
+ 'C02': dict(tech='integer zone tables + rational-function normal form + counting-fold refinement + exactness (E9) of domain guards + sign certificates',
    text='Proof on the type-checked program: (i) the domain checks of ci_wilson / ci_z_normal are compared with the documented regions on every cell of the arrangement of their integer guards (finite abstract domain, complete); (ii) on the accepted region the Ok bounds are shown equal, as rational functions with sqrt and quantile atoms, to the Wilson centre -/+ span (independently: both vanish in the score polynomial) resp. the Wald formula, with the kind table; (iii) every front-end (ci, Stats::ci, ci_true, ci_if, FromIterator, extend, extend_if, add_success/failure) is a counting fold with the predicate polarity in the step obligation, and the ratio form passes round(r*n); (iv) is_significant equals its documented thresholds on every zone cell.',
-   note='floats as reals; n >= 1 (n = 0 under C11); bounds within [0,1] not decided (analytic); level in (0,1)', ref='4/C02'),
+   note='floats as reals for the formula; bounds within [0,1] decided over the reals by sign certificates; domain guards additionally required to be computed exactly (E9) and integer operations on the accepted path to be overflow-free on the domain; n >= 1 (n = 0 under C11); level in (0,1)', ref='4/C02'),
  'C03': dict(tech='modular MIR summaries (callee contracts as stubs) + region-wise sign-certificate pruning + data-flow events',
    text='Per region of the documented domain every feasible path of Stats::ci / Stats::index / ci_sorted_unchecked has the documented outcome (guards, Wilson request for round(q*n), rank = min(floor(p*n), n-1) with the cap present, kind table, errors propagated unchanged, no panic for q outside (0,1)); ci / ci_max_size hand on exactly sort_by(collect(copied(data)), ascending comparator) (comparator decided on the three orderings), so the result depends on the data only through its sorted arrangement; ci_indices is Stats::new(n).ci.',
-   note='contracts used as stubs: ci_wilson (C02), slice::sort_by; "ranks bracket round(q*n) within one position" is a numeric fact about Wilson bounds, not decided', ref='4/C03'),
+   note='contracts used as stubs: ci_wilson (C02), slice::sort_by; "ranks bracket round(q*n) within one position" decided by composition of the rank map with the sign certificate that the Wilson bounds contain k/n (z >= 0)', ref='4/C03'),
  'C04': dict(tech='loop base/step refinement (fold and lock-step), stream algebra for length mismatch, formula identity',
    text='Paired: append_pair / extend_tuple / extend feed exactly a - b once per pair (base/step obligations on the havocked loop state), the lock-step loop reports DifferentSampleSizes(len a, len b) through the counter/remaining-count algebra and appends nothing after a mismatch, ci_mean is the C01 formula of the differences. Unpaired: every feeder routes each sample into its own component; ci_mean equals (ma - mb) -/+ c*sqrt(va/na + vb/nb) with the documented effective dof as a rational-function identity; exchange symmetry by substitution.',
    note='floats as reals; n >= 2 per sample; variances >= 0 and not both 0', ref='4/C04'),
  'C05': dict(tech='region-wise path summaries with the wrapped Arithmetic::ci_mean as a proved stub + sibling normal-form identities',
    text='append rejects x <= 0 with NonPositiveValue(x) and provably writes nothing on that path, otherwise accumulates ln x resp. 1/x; Geometric::ci_mean is exp of the wrapped bounds with the kind kept; Harmonic::ci_mean asks the wrapped state for the flipped confidence and returns (1/high, 1/low) with the kind of the request; sample_mean and sample_sem are the documented transforms of the wrapped state\'s own statistics.',
-   note='AM-GM ordering of the three means not decided (can fail by an ulp); harmonic two-sided well-formedness on the statement\'s positivity proviso', ref='4/C05'),
+   note='AM-GM ordering of the three means not decided (can fail by an ulp); harmonic two-sided well-formedness on the statement\'s positivity proviso; statistics additionally bounded in scaling degree (no spurious overflow of an intermediate)', ref='4/C05'),
  'C06': dict(tech='structural normal-form check of every critical-value use site',
    text='Necessary structural conditions only: every critical value reaching a bound of a mean / comparison / proportion interval is inverse_cdf of StudentsT(0,1,nu) with nu the term n-1 or the documented effective dof (Normal(0,1) above the constant threshold and for proportions) at q = (1+L)/2 | L, and it enters the bounds only as centre -/+ c*se (affine, opposite signs, no abs/clamp).',
    note='NOT decided: that statrs inverse_cdf inverts its CDF to the stated accuracy (numerical property of an external algorithm) - trusted contract', ref='4/C06'),
@@ -49,16 +49,16 @@ CLAIMED = {
    note='floats as reals (size of rounding differences between merge orders not decided)', ref='4/C09'),
  'C10': dict(tech='kind tables + substitution L -> 2L-1 on the code terms + sign certificates',
    text='For all eight producers: the kind of the result matches the confidence; the finite bound of the one-sided interval at L is identical (normal form) to the corresponding bound of the two-sided interval at 2L-1; for the centre -/+ c*se producers the interval contains the point estimate (two-sided, or one-sided at L >= 1/2) by sign certificates with c >= 0 at q >= 1/2.',
-   note='NOT decided: nesting in the level (monotonicity of external quantile functions); Wilson / quantile-rank containment of the estimate (analytic)', ref='4/C10'),
+   note='monotonicity of the external quantile functions in the level is a contract (C06); Wilson nesting in z and containment of k/n decided by sign certificates; quantile-rank containment decided under C03', ref='4/C10'),
  'C11': dict(tech='IEEE class/range abstract interpretation of every path condition of every entry point',
    text='For each of the 54 entry points, in dev-profile MIR with nothing assumed about inputs: every panic edge (overflow/bounds asserts, unwrap, panic!/assert!, external preconditions) is proved unreachable by the class/range domain or is in the documented table; every float bound of every Ok interval has an abstract value excluding NaN; the state-based producers return TooFewSamples for n < 2 and InvalidInputData for non-finite statistics.',
    note='levels in [0.001, 0.9999]; statrs inverse_cdf finite on (0,1); two-sided results only through the checked constructor (C14); panics inside generic element operators not visible', ref='4/C11'),
  'C16': dict(tech='substitution identities (scaling, shift, negation) on the code terms by normal form',
    text='For the arithmetic, paired and unpaired producers, on both distribution branches and all kinds: b(t*x) = t*b(x), b(x+a) = b(x)+a (difference invariant for unpaired), b(-x) = -(opposite bound of the mirrored kind), as identities of rational functions with sqrt atoms; exact scaling by powers of two follows by the stated IEEE meta-theorem.',
    note='size of rounding differences for shift / reorder not decided; geometric / harmonic by composition with C05', ref='4/C16'),
- 'C17': dict(tech='substitution k -> n-k on the Wilson / Wald summaries + score-root identity',
+ 'C17': dict(tech='substitution k -> n-k on the Wilson / Wald summaries + score-root identity + sign certificates (nf.decide_sign_sqrt) + exactness of domain guards',
    text='The interval for n-k successes is the mirror image 1 - (interval for k) with upper and lower exchanged including the far ends (normal-form identity on the code terms); both Wilson bounds are roots of the score polynomial, the premise of the cited theorems.',
-   note='NOT decided (theorems about the formula, cited): monotone in k, narrower with n, wider with the level, bounds in [0,1], midpoint between k/n and 1/2', ref='4/C17'),
+   note='the analytic clauses (bounds in [0,1], midpoint, outward movement with z, narrower on (t n, t k), monotone in k through its implicit-function premises) are decided over the reals by sign certificates on the code terms; cited: d/dk >= 0 on real k implies monotone integer steps; accepted domain mirror-symmetric in floating point by exactness of the guards (E9)', ref='4/C17'),
  'C20': dict(tech='compiler as checker over the feature matrix + derive-closure over the item graph',
    text='Each advertised feature set must type-check through the fact extractor (rustc is the decision procedure); under serde every type reachable through the fields of the public state types must have both derived serde impls and no data-dropping field attribute, which makes a round trip the field-wise identity.',
    note='losslessness of a concrete serialisation format on floats is a property of the serialiser', ref='4/C20'),
